@@ -83,185 +83,13 @@ pub trait Prop: Sync {
     fn per_case_timeout_ms(&self) -> u64 {
         20000
     }
-}
-
-// ---------------------------------------------------------------------------------------------
-// Trace comparison
-
-#[derive(Clone, Copy, Debug)]
-pub struct Facet {
-    /// Compare line/column too (otherwise byte indices only).
-    pub locs: bool,
-    /// Compare the action log (rule ids, spans).
-    pub log: bool,
-    /// Compare `match_()` and `peek()` in the log.
-    pub log_text_peek: bool,
-    /// Stop after the first InvalidToken item.
-    pub upto_first_invalid: bool,
-    /// Compare only what follows the first InvalidToken item (C08).
-    pub after_first_invalid: bool,
-    /// Compare error locations (C07) — if false, errors are compared by kind only.
-    pub err_locs: bool,
-}
-
-impl Facet {
-    pub const TOKENS: Facet = Facet {
-        locs: false,
-        log: true,
-        log_text_peek: false,
-        upto_first_invalid: true,
-        after_first_invalid: false,
-        err_locs: false,
-    };
-}
-
-fn cut_after_first_invalid(items: &[Item]) -> usize {
-    items
-        .iter()
-        .position(|i| matches!(i, Item::Invalid { .. }))
-        .map(|p| p + 1)
-        .unwrap_or(items.len())
-}
-
-fn proj_loc(l: proto::Loc, full: bool) -> proto::Loc {
-    if full {
-        l
-    } else {
-        proto::Loc {
-            line: 0,
-            col: 0,
-            byte: l.byte,
-        }
+    /// Facet name for the coverage-guided fuzzing stage of the thorough tier (None = no stage).
+    fn fuzz_facet(&self) -> Option<&'static str> {
+        None
     }
 }
 
-fn proj_item(i: &Item, f: &Facet) -> Item {
-    match i {
-        Item::Tok { start, tok, end } => Item::Tok {
-            start: proj_loc(*start, f.locs),
-            tok: *tok,
-            end: proj_loc(*end, f.locs),
-        },
-        Item::Invalid { loc } => Item::Invalid {
-            loc: if f.err_locs {
-                proj_loc(*loc, f.locs)
-            } else {
-                proto::Loc::default()
-            },
-        },
-        Item::Custom { nonce, rule, loc } => Item::Custom {
-            nonce: *nonce,
-            rule: *rule,
-            loc: if f.err_locs {
-                proj_loc(*loc, f.locs)
-            } else {
-                proto::Loc::default()
-            },
-        },
-    }
-}
-
-pub fn fmt_item(i: &Item) -> String {
-    match i {
-        Item::Tok { start, tok, end } => format!(
-            "T{}[{}..{} {}:{}-{}:{}]",
-            tok, start.byte, end.byte, start.line, start.col, end.line, end.col
-        ),
-        Item::Invalid { loc } => format!("E@{}({}:{})", loc.byte, loc.line, loc.col),
-        Item::Custom { nonce, rule, loc } => {
-            format!("C{}r{}@{}({}:{})", nonce, rule, loc.byte, loc.line, loc.col)
-        }
-    }
-}
-
-pub fn fmt_run(r: &Run) -> String {
-    let items: Vec<String> = r.items.iter().map(fmt_item).collect();
-    let log: Vec<String> = r
-        .log
-        .iter()
-        .map(|e| {
-            format!(
-                "#{}:r{}[{}..{}]{}{}",
-                e.item_idx,
-                e.rule,
-                e.start.byte,
-                e.end.byte,
-                e.text.as_ref().map(|t| format!("{:?}", t)).unwrap_or_default(),
-                e.peek.map(|c| format!("^{:?}", c)).unwrap_or_default()
-            )
-        })
-        .collect();
-    format!(
-        "items=[{}] log=[{}]{}{}",
-        items.join(", "),
-        log.join(", "),
-        if r.after_none > 0 { format!(" after_none={}", r.after_none) } else { String::new() },
-        if r.runaway { " RUNAWAY" } else { "" }
-    )
-}
-
-/// `Err(prefix mismatch)` is reported separately so that C08 can skip cases whose prefix differs.
-pub fn compare_runs(exp: &Run, got: &Run, f: &Facet) -> Result<(), String> {
-    let ce = cut_after_first_invalid(&exp.items);
-    let cg = cut_after_first_invalid(&got.items);
-    let (ei, gi, lo_e, hi_e, lo_g, hi_g): (&[Item], &[Item], u32, u32, u32, u32) = if f.upto_first_invalid {
-        (&exp.items[..ce], &got.items[..cg], 0, ce as u32, 0, cg as u32)
-    } else if f.after_first_invalid {
-        (&exp.items[ce..], &got.items[cg..], ce as u32, u32::MAX, cg as u32, u32::MAX)
-    } else {
-        (&exp.items[..], &got.items[..], 0, u32::MAX, 0, u32::MAX)
-    };
-    for k in 0..ei.len().max(gi.len()) {
-        let a = ei.get(k).map(|i| proj_item(i, f));
-        let b = gi.get(k).map(|i| proj_item(i, f));
-        if a != b {
-            return Err(format!(
-                "item {} differs: expected {} got {}",
-                k,
-                ei.get(k).map(fmt_item).unwrap_or_else(|| "<end of stream>".into()),
-                gi.get(k).map(fmt_item).unwrap_or_else(|| "<end of stream>".into())
-            ));
-        }
-    }
-    if f.log {
-        let el: Vec<_> = exp.log.iter().filter(|e| e.item_idx >= lo_e && e.item_idx < hi_e).collect();
-        let gl: Vec<_> = got.log.iter().filter(|e| e.item_idx >= lo_g && e.item_idx < hi_g).collect();
-        for k in 0..el.len().max(gl.len()) {
-            let same = match (el.get(k), gl.get(k)) {
-                (Some(a), Some(b)) => {
-                    a.rule == b.rule
-                        && a.item_idx - lo_e == b.item_idx - lo_g
-                        && proj_loc(a.start, f.locs) == proj_loc(b.start, f.locs)
-                        && proj_loc(a.end, f.locs) == proj_loc(b.end, f.locs)
-                        && (!f.log_text_peek || (a.text == b.text && a.peek == b.peek))
-                }
-                _ => false,
-            };
-            if !same {
-                return Err(format!(
-                    "action log entry {} differs: expected {:?} got {:?}",
-                    k,
-                    el.get(k),
-                    gl.get(k)
-                ));
-            }
-        }
-    }
-    Ok(())
-}
-
-/// Do both runs agree up to and including the first InvalidToken (bytes only)?
-pub fn prefix_agrees(exp: &Run, got: &Run) -> bool {
-    let f = Facet {
-        locs: false,
-        log: false,
-        log_text_peek: false,
-        upto_first_invalid: true,
-        after_first_invalid: false,
-        err_locs: false,
-    };
-    compare_runs(exp, got, &f).is_ok()
-}
+pub use oracle::cmp::*;
 
 pub fn basic_health(got: &Outcome) -> Result<&Trace, String> {
     match got {
@@ -823,6 +651,53 @@ pub fn run_collect(prop: &dyn Prop, tier: Tier) -> (Evidence, i32) {
     });
 
     let mut t = total.into_inner().unwrap();
+    // Thorough tier: coverage-guided stage (Engine D) on a batch of the compiled definitions.
+    let mut fuzz_info = json!("not part of this tier");
+    if let (Tier::Thorough, Some(facet)) = (tier, prop.fuzz_facet()) {
+        if t.violations.is_empty() {
+            let batch: Vec<usize> = prep.usable.iter().copied().filter(|i| prep.specs[*i].1.n_rules() > 0).step_by((prep.usable.len() / 40).max(1)).take(40).collect();
+            let specs_b: Vec<&Spec> = batch.iter().map(|i| &prep.specs[*i].1).collect();
+            let mut seeds = vec![];
+            for (k, si) in batch.iter().enumerate() {
+                if let Some((ctx, mut comp)) = make_ctx(*si, prep.specs[*si].0, prep.specs[*si].1.clone()) {
+                    let mut r = runner(seed(), &format!("{}-fuzzseeds-{}", prop.id(), si));
+                    let cs = prop.cases(&ctx, &mut comp, &mut r, Tier::Quick);
+                    let stepc = (cs.len() / 6).max(1);
+                    for c in cs.iter().step_by(stepc).take(6) {
+                        if c.input.len() <= 100 {
+                            seeds.push((k, c.clone()));
+                        }
+                    }
+                }
+            }
+            let fr = crate::engd::lex_inputs_stage(prop.id(), facet, &specs_b, &seeds, 400_000, 900);
+            let mut confirmed = 0;
+            for (k, case, msg) in &fr.crashes {
+                // re-judge through the ordinary path so that the verdict is this property's
+                let si = batch[*k];
+                if let Some((bin, lexer_idx)) = prep.build.bins.iter().find_map(|b| b.specs.iter().position(|x| *x == si).map(|p| (b, p))) {
+                    if let Some((ctx, mut comp)) = make_ctx(si, prep.specs[si].0, prep.specs[si].1.clone()) {
+                        let mut server = Server::new(&bin.path, prop.per_case_timeout_ms());
+                        let vars = prop.variants(case);
+                        let refs: Vec<&Case> = vars.iter().collect();
+                        let outs = server.run(lexer_idx as u32, &refs);
+                        let models: Vec<ModelOut> = vars.iter().map(|c| run_model(&mut comp, c)).collect();
+                        if let Verdict::Bad(reason) = prop.judge(&ctx, &vars, &models, &outs) {
+                            confirmed += 1;
+                            t.violations.push(Violation {
+                                spec_idx: si,
+                                summary: format!("(found by the coverage-guided stage) {} | input {:?} script {:?}", pipe::trunc(&reason, 300), case.input, case.script),
+                                replay: replay_json(prop.id(), &ctx, case, &format!("{} [libFuzzer: {}]", reason, pipe::trunc(msg, 200)), &models[0].trace, &outs[0]),
+                            });
+                        }
+                    }
+                }
+            }
+            fuzz_info = json!({"ran": fr.ran, "note": fr.note, "executions": fr.runs, "secs": fr.secs, "lexers_in_target": specs_b.len(), "seed_corpus": seeds.len(), "final_corpus": fr.corpus_files, "artifacts": fr.crashes.len(), "artifacts_confirmed_by_judge": confirmed, "facet": facet});
+            eprintln!("[{}] fuzz stage: {}", prop.id(), fuzz_info);
+            t.evaluations += fr.runs;
+        }
+    }
     t.violations.sort_by_key(|v| v.spec_idx);
     let mut n_viol = 0;
     for v in t.violations.iter().take(5) {
@@ -861,6 +736,7 @@ pub fn run_collect(prop: &dyn Prop, tier: Tier) -> (Evidence, i32) {
     ev.set("build_secs", json!(prep.build.build_secs));
     ev.set("exhaustive", json!(false));
     ev.set("oracle_selftest_cases", json!(selftest_cases));
+    ev.set("coverage_guided_stage", fuzz_info);
     ev.assumptions = vec![
         "rustc, cargo, proptest, unicode-width and the oracle crate (reference model) are trusted; the reference is cross-checked on a sample of this run's cases against a second, independently written reference (oracle_selftest_cases)".into(),
         "definitions are well-formed by construction: no nullable rule, no empty class, `$` only in tail position".into(),
